@@ -350,7 +350,8 @@ func (w *world) join(op map[string]any) string {
 		}
 	}()
 	errc := make(chan error, 1)
-	go func() { defer w.helpers.Done(); errc <- w.r.AttachClient(rs, nil) }()
+	transportDetails := w.dict(op["transport"])
+	go func() { defer w.helpers.Done(); errc <- w.r.AttachClient(rs, transportDetails) }()
 	synctest.Wait()
 	select {
 	case err := <-errc:
